@@ -147,7 +147,7 @@ func mRun(r *engine.Run, mode string) int {
 		if json.Unmarshal(res.Data, &d) != nil {
 			return
 		}
-		if n%2003 == 1 && d.Sample != nil {
+		if d.Sample != nil && (r.NSamples() < 3 || n%2003 == 1) {
 			r.Sample(d.Sample)
 		}
 		if mode != "c01" {
